@@ -28,7 +28,8 @@ RULE = (
 ASSUMPTIONS = [
     "generated scores follow the importer's conventions: Page 1 and System 1 from the first to the last point, "
     "first point at t=0, explicit voices and staves, measure number == position in the part and name a string, "
-    "unique note ids, constant directions end at the next direction of the same family (score.set_end_times), "
+    "unique note ids, constant directions end at the next direction of the same family - loudness, tempo, articulation - "
+    "else at the last point (score.set_end_times), "
     "tempo marks in integral quarters with unit 'q', barline fermatas with ref left/middle/right matching their place",
     "notes, rests and graces do not cross barlines or divisions changes; concurrently tied notes have distinct pitches; "
     "slurs run forward in time; a grace run belongs to the note that is written first in its voice at that onset",
@@ -213,6 +214,20 @@ def spaces(tier, seed):
     sp.append(Space("C3-tuplets", lambda: G.gen_C_tuplets(False), True, "six triplet eighths (divisions 3): every bracket and every pair of brackets"))
     sp.append(Space(bname("C3-tuplets-2voices"), blk(lambda: G.gen_C_tuplets(True)), True, btxt + "C3 with two quarters in voice 2"))
     sp.append(Space(bname("C4-slur-pairs"), blk(G.gen_C_slurpairs), True, btxt + "all pairs and triples of slurs over five notes in two voices"))
+    c5 = ("two 1/4 measures, grid times 0..3; at every grid time any subset of the three constant-direction families "
+          "{loudness (p, dolce, f), tempo (adagio, allegro), articulation (legato, staccato)} gets a new direction (all 8^4-1 "
+          "assignments: every family changes alone / together with one / with both others, at first and later occurrences; "
+          "each direction must end where the next of its own family starts, else at the end of the part); ")
+    sp.append(Space("C5-constant-direction-sequences", lambda: G.gen_C_cdirs(False), True,
+                    c5 + "core with an onset at every grid time; simultaneous directions attached in family order l,t,a and a,t,l"))
+    if q:
+        sp.append(Space("C5-constant-direction-sequences-orders-block", G.stride(lambda: G.gen_C_cdirs(True), 16, seed % 16), True,
+                        "block %d of 16 (index stride) of: " % (seed % 16) + c5 + "the other four family orders on that core and all six "
+                        "orders on a core with grid times inside a note and at an empty barline (orders that do not change the case omitted)"))
+    else:
+        sp.append(Space("C5-constant-direction-sequences-orders", lambda: G.gen_C_cdirs(True), True,
+                        c5 + "the other four family orders on that core and all six orders on a core with grid times inside a note "
+                        "and at an empty barline (orders that do not change the case omitted)"))
     sp.append(Space(bname("D1-divisions-change"), blk(G.gen_D_divisions), True,
                     btxt + "divisions change q0->q1 (all ordered pairs from 1..4) in the middle of a 2/4 measure or at the barline of two 1/4 "
                     "measures; all cores of <=2 events not crossing the change"))
